@@ -16,6 +16,8 @@ CANARIES = ["canary.week52"]
 
 def _quick_at(name):
     shape, spec = name.split(":")
+    if spec in ("dow+hh", "ww-dow-late"):
+        return False                      # thorough tier (the quick tier keeps dom+hh, ww-dow)
     return shape in ("cal-hms",) or (shape, spec) in (
         ("ord-hm", "mm"), ("week-h", "hh"), ("ord-hms", "dom"), ("week-hms", "doy"),
         ("ord-hms", "dow"), ("week-hms", "hhmmss"))
@@ -76,7 +78,19 @@ def bounded(tier, seed, repo):
         for doy in (cal.SUM, cal.SUML):
             targets.append(("day_of_year", {"day_of_year": doy}))
         for w in (52, 53):
-            targets.append(("week", {"week_of_year": w, "day_of_week": 3}))
+            if w <= cal.MAXW:
+                targets.append(("week", {"week_of_year": w, "day_of_week": 3}))
+            else:
+                # a week no week year of this calendar has: refused at construction (it used to
+                # be accepted and the search for it never ended: fixed in 635706a)
+                n += 1
+                try:
+                    TimePoint(truncated=True, week_of_year=w, day_of_week=3)
+                    fails.append({"id": "accepts-%s-week-%d" % (mode, w),
+                                  "input": {"mode": mode, "t": {"week_of_year": w, "day_of_week": 3}},
+                                  "observed": "accepted", "expected": "BadInputError"})
+                except ValueError:
+                    pass
         targets.append(("dom+time", {"day_of_month": 15, "hour_of_day": 6}))
         targets.append(("dow+time", {"day_of_week": 1, "minute_of_hour": 30}))
         for (kind, kw) in targets:
